@@ -15,6 +15,7 @@
 """Flax functional core: Scopes."""
 
 import collections
+import copy
 import contextlib
 import dataclasses
 import functools
@@ -785,7 +786,17 @@ class Scope:
         for k, v in val.items():
           put(target[key], k, v)
       else:
-        target[key] = val
+        # later puts are merged into a stored dict in place (see above): store a
+        # copy of the dict structure so that the caller's dict stays untouched.
+        target[key] = copy_dicts(val)
+
+    def copy_dicts(val):
+      if not isinstance(val, dict):
+        return val
+      new = copy.copy(val)
+      for k, v in val.items():
+        new[k] = copy_dicts(v)
+      return new
 
     put(variables, name, value)
 
